@@ -638,11 +638,10 @@ impl DrawExecutor {
     }
 
     fn blit_screen_to_screen(&mut self, _write_mode: i32, from: Position, to: Position, dest: Position) {
-        let width = to.x - from.x;
-        let height = to.y - from.y;
-
-        for y in 0..height {
-            for x in 0..width {
+        let res = self.get_resolution();
+        // only destination pixels on the canvas can be written
+        for y in on_canvas(to.y - from.y, dest.y, res.height) {
+            for x in on_canvas(to.x - from.x, dest.x, res.width) {
                 let color = self.get_pixel(from.x + x, from.y + y);
                 self.set_pixel(dest.x + x, dest.y + y, color);
             }
@@ -651,28 +650,28 @@ impl DrawExecutor {
 
     fn blit_memory_to_screen(&mut self, _write_mode: i32, from: Position, to: Position, dest: Position) {
         let width = to.x - from.x;
-        let height = to.y - from.y;
         let res = self.get_resolution();
 
-        for y in 0..height {
+        for y in on_canvas(to.y - from.y, dest.y, res.height) {
             let yp = y + from.y;
-            if dest.y + y >= res.height {
-                break;
-            }
-            for x in 0..width {
+            for x in on_canvas(width, dest.x, res.width) {
                 let xp = x + from.x;
-
-                if dest.x + x >= res.width {
-                    break;
+                let offset = yp as i64 * width as i64 + xp as i64;
+                if offset < 0 || offset >= self.screen_memory.len() as i64 {
+                    // nothing was saved for this position
+                    continue;
                 }
-                let offset = (yp * width + xp) as usize;
-                let color = self.screen_memory[offset];
+                let color = self.screen_memory[offset as usize];
                 self.set_pixel(dest.x + x, dest.y + y, color);
             }
         }
     }
 
     fn blit_screen_to_memory(&mut self, _write_mode: i32, from: Position, to: Position) {
+        // only what is on the screen can be saved
+        let res = self.get_resolution();
+        let from = Position::new(from.x.clamp(0, res.width), from.y.clamp(0, res.height));
+        let to = Position::new(to.x.clamp(from.x, res.width), to.y.clamp(from.y, res.height));
         let width = to.x - from.x;
         let height = to.y - from.y;
 
@@ -764,6 +763,13 @@ impl DrawExecutor {
         self.line_type = old_type;
         self.fill_color = old_color;
     }
+}
+
+/// the offsets `0..len` whose destination `dest + offset` lies on the canvas (`0..limit`)
+fn on_canvas(len: i32, dest: i32, limit: i32) -> std::ops::Range<i32> {
+    let start = 0.max(-(dest as i64)).min(i32::MAX as i64) as i32;
+    let end = (len as i64).min(limit as i64 - dest as i64).max(start as i64) as i32;
+    start..end
 }
 
 impl CommandExecutor for DrawExecutor {
